@@ -895,17 +895,35 @@ func (env *SEnv) builtin(name string, args []*SExpr, e *SExpr) *SVal {
 			sfail("%v", err)
 		}
 		return &SVal{T: vc.tagMatches(vc.ifTag(x.T), T), Go: tb}
+	case "substr":
+		need(3)
+		x := env.materialize(env.tr(args[0]), types.Typ[types.String])
+		lo := env.materialize(env.tr(args[1]), types.Typ[types.Int])
+		hi := env.materialize(env.tr(args[2]), types.Typ[types.Int])
+		return &SVal{T: vc.substr(env.cur, x.T, vc.toIdx(lo.T, lo.Go), vc.toIdx(hi.T, hi.Go)), Go: types.Typ[types.String]}
 	case "hamming":
 		// hamming(a, b, n): number of positions k < n in which the binary representations of a and b differ
 		need(3)
 		a := env.materialize(env.tr(args[0]), types.Typ[types.Int])
 		b := env.materialize(env.tr(args[1]), types.Typ[types.Int])
+		if !vc.isBV() {
+			a = env.coerce(a, types.Typ[types.Int], "hamming")
+			b = env.coerce(b, types.Typ[types.Int], "hamming")
+		}
 		nv := env.tr(args[2])
 		if nv.CI == nil || nv.CI.Int64() < 1 || nv.CI.Int64() > 64 {
 			sfail("hamming needs a literal bit count 1..64")
 		}
 		if vc.isBV() {
-			sfail("hamming is an int-mode builtin")
+			a, b = env.unify(a, b)
+			w := a.T.S.W
+			sum := BVLit(big.NewInt(0), 64)
+			for k := 0; k < int(nv.CI.Int64()) && k < w; k++ {
+				ba := App(fmt.Sprintf("(_ extract %d %d)", k, k), SBV(1), a.T)
+				bb := App(fmt.Sprintf("(_ extract %d %d)", k, k), SBV(1), b.T)
+				sum = App("bvadd", SBV(64), sum, Ite(Eq(ba, bb), BVLit(big.NewInt(0), 64), BVLit(big.NewInt(1), 64)))
+			}
+			return &SVal{T: sum, Go: types.Typ[types.Int]}
 		}
 		var sum *Term = IntLit64(0)
 		for k := 0; k < int(nv.CI.Int64()); k++ {
